@@ -71,7 +71,8 @@ PROFILES = {
                 generr=True),
     "C16": dict(nreq=(1, 2), mutation=(1, 3), variants=True, reps=1,
                 configs="all", boom=(1, 8), stacks=True, overlap=True,
-                l2=(1, 2), badenum=True, repeats=True, generr=True),
+                l2=(1, 2), badenum=True, repeats=True, generr=True,
+                shared_errors=True),
 }
 
 
@@ -995,6 +996,12 @@ def _execute(config, bundle, spec, req, sched, policy):
                 if len(recs) >= 4 else MultiInstrumentation(
                     MultiInstrumentation(recs[0]),
                     MultiInstrumentation(*recs[1:]))
+        if (req.wseed >> 17) % 3 == 0:
+            # an application-wide stack to which the last member is added
+            # after construction, through the public attribute
+            stack = MultiInstrumentation(*recs[:-1])
+            stack.instrumentations += (recs[-1],)
+            return stack
         return MultiInstrumentation(*recs)
 
     world = World(spec, req.wseed, req.faults, nonfinite=req.nonfinite)
@@ -1093,6 +1100,11 @@ def _evaluate(res, prop, config, req, out, hooks):
                 ("shared-resolver-error-instance", "paths"),
                 "the same ResolverError instance raised at %r: errors carry "
                 "paths %r" % (want, got)))
+        # every field is resolved all the same: hooks and middlewares as for
+        # any other resolver error
+        V.extend(oracles.check_hooks(
+            config, "preparsed" if req.preparsed else "executed", exp,
+            events, tags, mw_tags))
         return
     if req.variant == "badenum":
         # No answer is specified for a developer error of this kind (py-gql
